@@ -813,6 +813,12 @@ func lawsAPI14(s sink, c case14, d *docCtx14) (string, bool) {
 		return cls, false
 	}
 	checkWellFormed14(s, c, cls, doc)
+	if cls == ClsOk && (c.Op == "fieldclear" || c.Op == "elemset" || c.Op == "elemappend" || c.Op == "teeset" || c.Op == "fieldmatch") {
+		d2 := d.ref.Copy()
+		if cls2, _, _, _ := execAPI14(d2, c); cls2 == ClsOk {
+			lawCopyIndependent14(s, c, d2, c.Path)
+		}
+	}
 	_, at, _ := lookupOn(d.orig, c.Path) // the node the filter is applied to (in the original)
 	switch c.Op {
 	case "elemmatch":
